@@ -50,10 +50,21 @@ fn string_of_units(r: &mut Rng, n: usize, style: u64) -> String {
     s
 }
 
+/// string of exactly n code points: all two-unit characters, all one-unit, or a mixture
+fn string_of_points(r: &mut Rng, n: usize, style: u64) -> String {
+    (0..n)
+        .map(|_| match style % 3 {
+            0 => *r.pick(&['\u{1f511}', '\u{1f600}', '\u{10348}', '\u{10ffff}', '\u{10000}']),
+            1 => *r.pick(&['\u{4e2d}', '\u{e9}', 'a', '\u{ffff}', '\u{d7ff}']),
+            _ => *r.pick(&['\u{1f511}', 'x', '\u{e9}', '\u{4e2d}', '\u{10fc00}']),
+        })
+        .collect()
+}
+
 pub fn make_case(class: u64, idx: u64, seed: u64) -> Case {
     let mut r = Rng::derive(seed, "C04", class, idx);
     // start from a C03 case (plain for classes 0,2,3; tls for 1) and replace the strings
-    let mut c = c03::make_case(if class == 1 { 1 } else { 0 }, idx, seed ^ 0x04);
+    let mut c = c03::make_case(if class == 1 || (class == 4 && idx % 2 == 1) { 1 } else { 0 }, idx, seed ^ 0x04);
     c.gen_class = class;
     c.idx = idx;
     c.seed = seed;
@@ -89,6 +100,24 @@ pub fn make_case(class: u64, idx: u64, seed: u64) -> Case {
                 c.cfg.name = s;
             }
             c.class = "client-name-boundary";
+        }
+        4 => {
+            // credentials at the top of the quantified range (up to 64 code points each, all of them surrogate pairs or a
+            // mixture): the client info PDU and the CredSSP tokens then pass 1 KiB; plain transport and TLS + NLA
+            let which = 1 + (idx / 2) % 7;
+            let mut s = |bit: u64, r: &mut Rng| {
+                let points = if which & bit != 0 { *r.pick(&[48usize, 60, 63, 64, 64, 64]) } else { *r.pick(&[0usize, 1, 12, 31, 32, 33]) };
+                string_of_points(r, points, idx / 14)
+            };
+            c.cfg.domain = s(1, &mut r);
+            c.cfg.user = s(2, &mut r);
+            c.cfg.password = s(4, &mut r);
+            c.cfg.hash = if idx % 5 == 4 { Some(crate::refs::ntlm::nt_hash(&c.cfg.password).to_vec()) } else { None };
+            c.cfg.blank_creds = false;
+            if c.transport == "tls" {
+                c.cfg.nla = idx % 8 != 7;
+            }
+            c.class = "long-credentials";
         }
         _ => {
             // credential sizes sweeping the PER length boundary of the MCS send-data request
@@ -216,6 +245,10 @@ fn drive(c: &Case) -> Result<Seen, mon::PanicInfo> {
         if !s.inbuf.is_empty() {
             nla.push(format!("incomplete frame: {} bytes written by the client do not make a whole PDU", s.inbuf.len()));
         }
+        if !s.nla_buf.is_empty() {
+            let announced = crate::refs::cssp::element_len(&s.nla_buf);
+            nla.push(format!("incomplete TSRequest: the client wrote {} bytes of an element announcing {:?} and nothing more", s.nla_buf.len(), announced));
+        }
         if let Some(Err(e)) = &s.nla_log.credentials {
             if !e.contains("checksum") && !e.contains("sequence") {
                 nla.push(format!("TSCredentials: {}", e));
@@ -274,7 +307,7 @@ pub fn run(cfg: &Cfg) -> Report {
     crate::tls::prewarm(true);
     let seed = cfg.seed;
     let mut total = Report::new();
-    let plan: Vec<(u64, u64)> = vec![(0, cfg.n(8_000, 1_500_000)), (1, cfg.n(1_500, 200_000)), (2, cfg.n(48 * 72, 48 * 72 * 24)), (3, cfg.n(140 * 8, 140 * 800))];
+    let plan: Vec<(u64, u64)> = vec![(0, cfg.n(8_000, 1_500_000)), (1, cfg.n(1_500, 200_000)), (2, cfg.n(48 * 72, 48 * 72 * 24)), (3, cfg.n(140 * 8, 140 * 800)), (4, cfg.n(600, 60_000))];
     for (class, n) in plan {
         if !cfg.wants(class) {
             continue;
